@@ -1177,11 +1177,118 @@ func stageStaleE2E() {
 	}
 }
 
+// a long-lived stream whose secure readers come and go: reader A plays while the stream's SRTP index is in the upper
+// half of the sequence space, leaves, the publisher keeps writing across the 65535 -> 0 wrap with NO reader attached,
+// then reader B arrives (DESCRIBE, SETUP, PLAY with nothing written in between, so the listed stale-ROC finding does
+// not apply). The key material B is given (roll-over counter included) must describe the stream as it is now: B
+// decrypts everything that follows. This holds only if the stream's context follows every written packet, readers
+// or not.
+func stageIdleStreamE2E(tcp bool) {
+	ctx.Eval()
+	name := "idle-stream e2e (udp)"
+	if tcp {
+		name = "idle-stream e2e (tcp)"
+	}
+	w := newWires()
+	h := &handler{}
+	var stream *gortsplib.ServerStream
+	playing := make(chan struct{}, 4)
+	h.onDescribe = func(*gortsplib.ServerHandlerOnDescribeCtx) (*base.Response, *gortsplib.ServerStream, error) {
+		return &base.Response{StatusCode: base.StatusOK}, stream, nil
+	}
+	h.onSetup = func(*gortsplib.ServerHandlerOnSetupCtx) (*base.Response, *gortsplib.ServerStream, error) {
+		return &base.Response{StatusCode: base.StatusOK}, stream, nil
+	}
+	h.onPlay = func(*gortsplib.ServerHandlerOnPlayCtx) (*base.Response, error) {
+		playing <- struct{}{}
+		return &base.Response{StatusCode: base.StatusOK}, nil
+	}
+	ts := startServer(true, !tcp, w, h)
+	defer ts.s.Close()
+	desc := testDesc(1, false)
+	stream = &gortsplib.ServerStream{Server: ts.s, Desc: desc}
+	if err := stream.Initialize(); err != nil {
+		panic(err)
+	}
+	defer stream.Close()
+	src := newFlow("idle-src")
+	u, _ := base.ParseURL(ts.url("/stream"))
+	reader := func(tag string, first uint16, n int) (got, derrs int64, ok bool) {
+		f := newFlow(tag)
+		proto := gortsplib.ProtocolUDP
+		if tcp {
+			proto = gortsplib.ProtocolTCP
+		}
+		cl := newClient(w, &proto)
+		cl.TLSConfig = clientTLS()
+		var derr atomic.Int64
+		cl.OnDecodeError = func(error) { derr.Add(1) }
+		cl.Scheme, cl.Host = u.Scheme, u.Host
+		if err := cl.Start(); err != nil {
+			panic(err)
+		}
+		defer cl.Close()
+		d, _, err := cl.Describe(u)
+		if err == nil {
+			err = cl.SetupAll(d.BaseURL, d.Medias)
+		}
+		if err != nil {
+			ctx.Failf(-1, "e2e-session-error", name, "reader %s: setup failed: %v", tag, err)
+			return 0, 0, false
+		}
+		cl.OnPacketRTPAny(func(_ *description.Media, _ format.Format, pkt *rtp.Packet) { f.nGot.Add(1) })
+		if _, err = cl.Play(nil); err != nil {
+			ctx.Failf(-1, "e2e-session-error", name, "reader %s: play failed: %v", tag, err)
+			return 0, 0, false
+		}
+		<-playing
+		time.Sleep(30 * time.Millisecond)
+		for i := 0; i < n; i++ {
+			stream.WritePacketRTP(desc.Medias[0], src.makeRTP(96, first+uint16(i))) //nolint:errcheck
+			if !tcp && i%8 == 7 {
+				time.Sleep(time.Millisecond)
+			}
+		}
+		waitFor(func() bool { return f.nGot.Load()+derr.Load() >= int64(n) }, 2*time.Second)
+		return f.nGot.Load(), derr.Load(), true
+	}
+	const n = 20
+	// the stream has been running for a while: its index is in the upper half
+	seq := uint16(40000)
+	stream.WritePacketRTP(desc.Medias[0], src.makeRTP(96, seq)) //nolint:errcheck
+	seq++
+	gotA, errA, ok := reader("idle-A", seq, n)
+	if !ok {
+		return
+	}
+	seq += n
+	// nobody is listening; the publisher goes on, across the wrap, far enough that a context that stopped at
+	// A's last packet would guess the wrong roll-over counter
+	for ; seq != 2000; seq++ { // 2000 < (A's last index - 32768): a context stuck at A's last packet would now guess ROC+1 while B is told ROC
+		stream.WritePacketRTP(desc.Medias[0], src.makeRTP(96, seq)) //nolint:errcheck
+	}
+	gotB, errB, ok := reader("idle-B", seq, n)
+	if !ok {
+		return
+	}
+	ctx.Kind("corpus:idle-stream-e2e")
+	ctx.Extra("idle_stream_e2e_"+map[bool]string{true: "tcp", false: "udp"}[tcp], map[string]any{"reader_a": gotA, "reader_a_errors": errA, "reader_b": gotB, "reader_b_errors": errB, "sent_each": n})
+	if gotA < n*9/10 {
+		ctx.Failf(-1, "idle-stream-first-reader", name, "reader A (stream at seq 40001) decrypted %d of %d packets (%d decode errors)", gotA, n, errA)
+	}
+	if gotB < n*9/10 {
+		ctx.Failf(-1, "idle-stream-late-reader-cannot-decrypt", name+": reader A plays at seq 40001.., leaves; 27500 packets written with no reader (through the 65535->0 wrap); reader B does DESCRIBE+SETUP+PLAY",
+			"reader B decrypted %d of %d packets written after it joined (%d decode errors): the key material it was given does not describe the stream", gotB, n, errB)
+	}
+}
+
 func stageE2E() {
 	erng = &lrand{r: hx.NewRand(ctx.Rng.U64())}
 	stageSetupStatus()
 	stageTunnel()
 	stageStaleE2E()
+	stageIdleStreamE2E(true)
+	stageIdleStreamE2E(false)
 	stageLatch(true)
 	stageLatch(false)
 
